@@ -2,6 +2,11 @@
    gen <id> <base> <n>                       -> <id> panic | <id> sid:min:max,...
    route <id> <hash> <sid:min:max,...>       -> <id> sid,sid,...   (ids of matching shards, sorted)
    update <id> <map> <upd>;<upd>;...         -> <id> sid:min:max,... sorted by sid   (each <upd>, <map> a shard list, "-" = empty)
+   status <id> <idgen0> <sidx0> <script> <op>;<op>;...
+        script: F | S | E<srv>+<srv>.. joined by ","   ("-" = empty)
+        op: A<name>:<count>:<rf>+...|<srv>+<srv>..   D<name>:<id>   M<name>:<id>:<st>:<term>:<leader>:<ens>:<min>:<max>
+     -> <id> <result>;<result>;...   one per op:
+        [ok{add:<id>=<ns>,..}{del:<id>,..}{calls:<ns>/<sidx>/<idgen>/<#ns>,..} | panic{calls:..}]{<status>}{pub:<published>}
 *)
 let shard_of_string s =
   match String.split_on_char ':' s with
@@ -11,6 +16,83 @@ let shards_of_string s = if s = "-" then [] else List.map shard_of_string (Strin
 let string_of_shard s = string_of_mz s.M.sid ^ ":" ^ string_of_n s.M.smin ^ ":" ^ string_of_n s.M.smax
 let string_of_shards l = if l = [] then "-" else String.concat "," (List.map string_of_shard l)
 let sort_by_id l = List.sort (fun a b -> Z.compare (z_of_mz a.M.sid) (z_of_mz b.M.sid)) l
+(* ---- status histories ---- *)
+let ints_of_plus s = if s = "-" || s = "" then [] else List.map n_of_string (String.split_on_char '+' s)
+let plus_of_ints l = if l = [] then "-" else String.concat "+" (List.map string_of_n l)
+let zcmp a b = Z.compare (z_of_mz a) (z_of_mz b)
+let ncmp a b = Z.compare (z_of_n a) (z_of_n b)
+let st_of_int = function 0 -> M.SUnknown | 1 -> M.SSteady | 2 -> M.SElection | _ -> M.SDeleting
+let int_of_st = function M.SUnknown -> 0 | M.SSteady -> 1 | M.SElection -> 2 | M.SDeleting -> 3
+let opt_n s = if s = "-" then None else Some (n_of_string s)
+let string_of_opt_n = function None -> "-" | Some n -> string_of_n n
+let join_or_dash sep l = if l = [] then "-" else String.concat sep l
+let string_of_meta m =
+  Printf.sprintf "%s:%d:%s:%s:%s:%s:%s" (string_of_mz m.M.m_id) (int_of_st m.M.m_st) (string_of_mz m.M.m_term)
+    (string_of_opt_n m.M.m_leader) (plus_of_ints m.M.m_ens) (string_of_n m.M.m_min) (string_of_n m.M.m_max)
+let string_of_status st =
+  let nss = List.sort (fun (a, _) (b, _) -> ncmp a b) st.M.st_ns in
+  let one (name, ns) =
+    let sh = List.sort (fun a b -> zcmp a.M.m_id b.M.m_id) ns.M.ns_shards in
+    Printf.sprintf "|%s~%s~%s" (string_of_n name) (string_of_n ns.M.ns_rf) (join_or_dash "," (List.map string_of_meta sh)) in
+  Printf.sprintf "%s,%s%s" (string_of_mz st.M.st_idgen) (string_of_n st.M.st_sidx)
+    (if nss = [] then "|-" else String.concat "" (List.map one nss))
+let string_of_pub st =
+  let pub = List.sort (fun (a, _) (b, _) -> ncmp a b) (M.compute_assignments st) in
+  let one (name, l) =
+    let l = List.sort (fun (a, _) (b, _) -> zcmp a.M.sid b.M.sid) l in
+    Printf.sprintf "%s~%s" (string_of_n name)
+      (join_or_dash "," (List.map (fun (s, ld) -> Printf.sprintf "%s:%s:%s:%s" (string_of_mz s.M.sid) (string_of_opt_n ld)
+                                       (string_of_n s.M.smin) (string_of_n s.M.smax)) l)) in
+  join_or_dash "|" (List.map one pub)
+let script_of_string s =
+  if s = "-" then [] else
+  List.map (fun e -> match e.[0] with
+    | 'F' -> M.SFail
+    | 'E' -> M.SExplicit (ints_of_plus (String.sub e 1 (String.length e - 1)))
+    | _ -> M.SSimple) (String.split_on_char ',' s)
+let run_status g0 x0 script ops =
+  let st = ref { M.st_ns = []; M.st_idgen = mz_of_string g0; M.st_sidx = n_of_string x0 } in
+  let script = ref (script_of_string script) in
+  let one o =
+    let body = String.sub o 1 (String.length o - 1) in
+    let head = match o.[0] with
+    | 'A' ->
+      let (nss, srvs) = match String.split_on_char '|' body with [a; b] -> (a, b) | _ -> failwith "bad A op" in
+      let ncs = if nss = "-" then [] else List.map (fun p -> match String.split_on_char ':' p with
+        | [a; b; c] -> { M.nc_name = n_of_string a; M.nc_count = n_of_string b; M.nc_rf = n_of_string c }
+        | _ -> failwith "bad ns") (String.split_on_char '+' nss) in
+      let cfg = { M.cfg_ns = ncs; M.cfg_servers = ints_of_plus srvs } in
+      let sup = { M.sup_servers = cfg.M.cfg_servers; M.sup_script = !script; M.sup_log = [] } in
+      let (r, sup') = M.apply_scripted cfg !st sup in
+      script := sup'.M.sup_script;
+      let calls = join_or_dash "," (List.map (fun (((a, b), c), d) ->
+        Printf.sprintf "%s/%s/%s/%s" (string_of_n a) (string_of_n b) (string_of_mz c) (string_of_n d)) (List.rev sup'.M.sup_log)) in
+      (match r with
+       | None -> "panic{calls:" ^ calls ^ "}"
+       | Some ((st', toadd), todel) ->
+         st := st';
+         (* the Go map keeps the last name stored for an id *)
+         let tbl = Hashtbl.create 16 in
+         List.iter (fun (id, name) -> Hashtbl.replace tbl (string_of_mz id) (id, name)) toadd;
+         let adds = List.sort (fun (a, _) (b, _) -> zcmp a b) (Hashtbl.fold (fun _ v acc -> v :: acc) tbl []) in
+         let dels = List.sort zcmp todel in
+         Printf.sprintf "ok{add:%s}{del:%s}{calls:%s}"
+           (join_or_dash "," (List.map (fun (id, name) -> string_of_mz id ^ "=" ^ string_of_n name) adds))
+           (join_or_dash "," (List.map string_of_mz dels)) calls)
+    | 'D' ->
+      (match String.split_on_char ':' body with
+       | [a; b] -> st := M.delete_shard_metadata (n_of_string a) (mz_of_string b) !st; ""
+       | _ -> failwith "bad D op")
+    | _ ->
+      (match String.split_on_char ':' body with
+       | [a; b; c; d; e; f; g; h] ->
+         let m = { M.m_id = mz_of_string b; M.m_st = st_of_int (int_of_string c); M.m_term = mz_of_string d;
+                   M.m_leader = opt_n e; M.m_ens = ints_of_plus f; M.m_min = n_of_string g; M.m_max = n_of_string h } in
+         st := M.update_shard_metadata (n_of_string a) m !st; ""
+       | _ -> failwith "bad M op") in
+    head ^ "{" ^ string_of_status !st ^ "}{pub:" ^ string_of_pub !st ^ "}" in
+  String.concat ";" (List.map one (String.split_on_char ';' ops))
+
 let () = read_lines (fun line ->
   match String.split_on_char ' ' line with
   | ["gen"; id; base; n] ->
@@ -24,5 +106,7 @@ let () = read_lines (fun line ->
     let us = if us = "-" then [] else List.map shards_of_string (String.split_on_char ';' us) in
     let r = List.fold_left (fun m u -> M.client_update m u) (shards_of_string m) us in
     Printf.printf "%s %s\n" id (string_of_shards (sort_by_id r))
+  | ["status"; id; g0; x0; script; ops] ->
+    Printf.printf "%s %s\n" id (run_status g0 x0 script ops)
   | [] | [""] -> ()
   | _ -> Printf.printf "?? bad line: %s\n" line)
